@@ -18,7 +18,7 @@ use crate::tcp2::{Ev as TEv, Tcp2, Tcp2Cfg};
 use serde_json::json;
 use smoltcp::iface::{Config, Interface, SocketHandle, SocketSet};
 use smoltcp::phy::Medium;
-use smoltcp::socket::{dhcpv4, dns, udp};
+use smoltcp::socket::{dhcpv4, dns, icmp, raw, tcp, udp};
 use smoltcp::time::Instant;
 use smoltcp::wire::{EthernetAddress, HardwareAddress, IpAddress, IpCidr, Ipv4Address, Ipv6Address};
 
@@ -190,16 +190,21 @@ pub struct P2Cfg {
     /// a scripted DHCP server (and nothing else) is in the alphabet: leases are acquired,
     /// renewed, refused, so that the deadlines of a configured client are probed too
     pub served: bool,
+    /// second alphabet: IPv6 neighbor discovery, icmp / raw / tcp sockets (instead of DNS,
+    /// big datagrams and the 61 s jump)
+    pub more: bool,
 }
 
 pub fn p2_configs() -> Vec<P2Cfg> {
     vec![
-        P2Cfg { name: "iface", slaac: false, dhcp: false, mtu: 1500, served: false },
-        P2Cfg { name: "iface-frag", slaac: false, dhcp: false, mtu: 120, served: false },
-        P2Cfg { name: "iface-dhcp", slaac: false, dhcp: true, mtu: 1500, served: false },
-        P2Cfg { name: "iface-dhcp-served", slaac: false, dhcp: true, mtu: 1500, served: true },
-        P2Cfg { name: "iface-slaac", slaac: true, dhcp: false, mtu: 1500, served: false },
-        P2Cfg { name: "iface-slaac-frag", slaac: true, dhcp: false, mtu: 120, served: false },
+        P2Cfg { name: "iface", slaac: false, dhcp: false, mtu: 1500, served: false, more: false },
+        P2Cfg { name: "iface-frag", slaac: false, dhcp: false, mtu: 120, served: false, more: false },
+        P2Cfg { name: "iface-dhcp", slaac: false, dhcp: true, mtu: 1500, served: false, more: false },
+        P2Cfg { name: "iface-dhcp-served", slaac: false, dhcp: true, mtu: 1500, served: true, more: false },
+        P2Cfg { name: "iface-more", slaac: false, dhcp: false, mtu: 1500, served: false, more: true },
+        P2Cfg { name: "iface-slaac-more", slaac: true, dhcp: false, mtu: 1500, served: false, more: true },
+        P2Cfg { name: "iface-slaac", slaac: true, dhcp: false, mtu: 1500, served: false, more: false },
+        P2Cfg { name: "iface-slaac-frag", slaac: true, dhcp: false, mtu: 120, served: false, more: false },
     ]
 }
 
@@ -214,6 +219,16 @@ pub enum P2Ev {
     DnsQuery,
     ArpReplyFromPeer,
     RouterAdvert { lifetime_s: u16, prefix: bool },
+    /// UDP datagram to an on-link IPv6 neighbor nobody answers for (neighbor solicitation back-off)
+    UdpToUnresolvedV6,
+    /// ICMP echo request from an icmp socket to the unresolved IPv4 neighbor
+    IcmpToUnresolved,
+    /// raw IPv4 packet (protocol 253) to the peer
+    RawToPeer,
+    /// TCP active open towards the peer (SYN retransmission timer x neighbor resolution)
+    TcpConnectPeer,
+    /// TCP abort
+    TcpAbort,
     /// the DHCP server answers the client's latest message: DISCOVER -> OFFER, REQUEST -> ACK
     /// (lease of `lease_s` seconds, T1/T2 left to the client's defaults)
     DhcpAnswer { lease_s: u32 },
@@ -228,6 +243,9 @@ pub struct P2 {
     sockets: SocketSet<'static>,
     udp: SocketHandle,
     dns: SocketHandle,
+    icmp: SocketHandle,
+    raw: SocketHandle,
+    tcp: SocketHandle,
     now: i64,
     hist: Vec<P2Ev>,
     last_poll_quiet: bool,
@@ -357,6 +375,36 @@ impl P2 {
                 let _ = s.start_query(cx, "a.example", smoltcp::wire::DnsQueryType::A);
             }
             P2Ev::ArpReplyFromPeer => self.arp_reply_from_peer(),
+            P2Ev::UdpToUnresolvedV6 => {
+                let s = self.sockets.get_mut::<udp::Socket>(self.udp);
+                let _ = s.send_slice(b"z", (IpAddress::Ipv6(Ipv6Address::new(0xfe80, 0, 0, 0, 0, 0, 0, 0x77)), 9000));
+            }
+            P2Ev::IcmpToUnresolved => {
+                use smoltcp::wire::*;
+                let r = Icmpv4Repr::EchoRequest { ident: 0x1234, seq_no: 1, data: b"ping" };
+                let s = self.sockets.get_mut::<icmp::Socket>(self.icmp);
+                if let Ok(b) = s.send(r.buffer_len(), IpAddress::v4(192, 168, 1, 77)) {
+                    r.emit(&mut Icmpv4Packet::new_unchecked(b), &smoltcp::phy::ChecksumCapabilities::default());
+                }
+            }
+            P2Ev::RawToPeer => {
+                use smoltcp::wire::*;
+                let ip = Ipv4Repr { src_addr: Ipv4Address::new(192, 168, 1, 1), dst_addr: Ipv4Address::new(192, 168, 1, 2), next_header: IpProtocol::Unknown(253), payload_len: 4, hop_limit: 64 };
+                let mut b = [0u8; 24];
+                ip.emit(&mut Ipv4Packet::new_unchecked(&mut b[..]), &smoltcp::phy::ChecksumCapabilities::default());
+                b[20..].copy_from_slice(b"rawp");
+                let s = self.sockets.get_mut::<raw::Socket>(self.raw);
+                let _ = s.send_slice(&b);
+            }
+            P2Ev::TcpConnectPeer => {
+                let cx = self.iface.context();
+                let s = self.sockets.get_mut::<tcp::Socket>(self.tcp);
+                let _ = s.connect(cx, (IpAddress::v4(192, 168, 1, 2), 80), 40000);
+            }
+            P2Ev::TcpAbort => {
+                let s = self.sockets.get_mut::<tcp::Socket>(self.tcp);
+                s.abort();
+            }
             P2Ev::DhcpAnswer { lease_s } => {
                 use smoltcp::wire::DhcpMessageType as M;
                 // the server is also the resolved neighbor the unicast renewals go to
@@ -447,10 +495,23 @@ impl Harness for P2 {
         u.bind(5000).unwrap();
         let udp = sockets.add(u);
         let dns = sockets.add(dns::Socket::new(&[IpAddress::v4(192, 168, 1, 53)], vec![]));
+        let mut ic = icmp::Socket::new(
+            icmp::PacketBuffer::new(vec![icmp::PacketMetadata::EMPTY; 2], vec![0u8; 256]),
+            icmp::PacketBuffer::new(vec![icmp::PacketMetadata::EMPTY; 2], vec![0u8; 256]),
+        );
+        ic.bind(icmp::Endpoint::Ident(0x1234)).unwrap();
+        let icmp = sockets.add(ic);
+        let raw = sockets.add(raw::Socket::new(
+            Some(smoltcp::wire::IpVersion::Ipv4),
+            Some(smoltcp::wire::IpProtocol::Unknown(253)),
+            raw::PacketBuffer::new(vec![raw::PacketMetadata::EMPTY; 2], vec![0u8; 256]),
+            raw::PacketBuffer::new(vec![raw::PacketMetadata::EMPTY; 2], vec![0u8; 256]),
+        ));
+        let tcp = sockets.add(tcp::Socket::new(tcp::SocketBuffer::new(vec![0u8; 64]), tcp::SocketBuffer::new(vec![0u8; 64])));
         if cfg.dhcp {
             sockets.add(dhcpv4::Socket::new());
         }
-        let mut p = P2 { cfg: cfg.clone(), iface, dev, sockets, udp, dns, now: 0, hist: vec![], last_poll_quiet: false, probes: 0, last_dhcp: None };
+        let mut p = P2 { cfg: cfg.clone(), iface, dev, sockets, udp, dns, icmp, raw, tcp, now: 0, hist: vec![], last_poll_quiet: false, probes: 0, last_dhcp: None };
         // initial poll(s)
         for _ in 0..4 {
             p.poll();
@@ -483,6 +544,21 @@ impl Harness for P2 {
             (P2Ev::DnsQuery, 0),
             (P2Ev::ArpReplyFromPeer, 0),
         ];
+        if self.cfg.more {
+            v = vec![
+                (P2Ev::Tick, 0),
+                (P2Ev::Plus(500_000), 0),
+                (P2Ev::UdpToUnresolved, 0),
+                (P2Ev::ArpReplyFromPeer, 0),
+                (P2Ev::UdpToUnresolvedV6, 0),
+                (P2Ev::IcmpToUnresolved, 0),
+                (P2Ev::RawToPeer, 0),
+            ];
+            match self.sockets.get::<tcp::Socket>(self.tcp).state() {
+                tcp::State::Closed => v.push((P2Ev::TcpConnectPeer, 0)),
+                _ => v.push((P2Ev::TcpAbort, 0)),
+            }
+        }
         if self.cfg.slaac {
             v.push((P2Ev::RouterAdvert { lifetime_s: 30, prefix: true }, 0));
             v.push((P2Ev::RouterAdvert { lifetime_s: 0, prefix: false }, 0));
@@ -587,7 +663,7 @@ pub fn run(tier: Tier) -> i32 {
     }
     let d = if tier == Tier::Quick { 5 } else { 7 };
     for cfg in p2_configs() {
-        let d = if cfg.served { d + 2 } else { d };
+        let d = if cfg.served { d + 2 } else if cfg.more { d.min(6) } else { d };
         let mut samples = vec![];
         let mut found = vec![];
         let t0 = std::time::Instant::now();
